@@ -104,9 +104,9 @@ def one_case(ctx, index, rng: random.Random):
         # compact integer contents: every bin fits the type, the running sums and marginals do not have to
         from physt.histogram_nd import Histogram2D, HistogramND
 
-        narrow = rng.choice(["int16", "int32"])
-        top = int(np.iinfo(narrow).max)
-        big = np.array([rng.choice([0, 1, top // 2, top - 1, top, rng.randint(0, top)]) for _ in range(int(np.prod(shape)))], dtype=narrow).reshape(shape)
+        narrow = rng.choice(["int16", "int32", "float16", "float32"])
+        top = {"float16": 60000, "float32": 2**24}.get(narrow) or int(np.iinfo(narrow).max)
+        big = np.array([rng.choice([0, 1, top // 2, top - 1, top, rng.randint(0, top)]) for _ in range(int(np.prod(shape)))]).astype(narrow).reshape(shape)
         bn = [b.copy() for b in h.binnings]
         try:
             g = Histogram2D(bn, frequencies=big, axis_names=names) if d == 2 else HistogramND(bn, frequencies=big, axis_names=names)
@@ -114,8 +114,9 @@ def one_case(ctx, index, rng: random.Random):
             pg = g.projection(*given)
             with attach.quiet():
                 dropped = tuple(i for i in range(d) if i not in axes)
-                exact = big.astype(np.int64).sum(axis=dropped)
-                if not np.array_equal(np.asarray(pg.frequencies).astype(np.int64), exact) or float(pg.total) != float(big.astype(np.int64).sum()):
+                wide_ = np.int64 if narrow.startswith("int") else np.float64
+                exact = big.astype(wide_).sum(axis=dropped)
+                if not np.array_equal(np.asarray(pg.frequencies).astype(wide_), exact) or float(pg.total) != float(big.astype(wide_).sum()):
                     rec.fail(monitor="C09.chain", op="projection(narrow integer contents)", symptom="marginal sums of compact integer contents wrapped around", diff=["frequencies"],
                              detail={**desc, "dtype": narrow, "got": np.asarray(pg.frequencies).ravel()[:8], "expected": exact.ravel()[:8]})
         except Exception as e:
